@@ -142,6 +142,13 @@ def run(tier, replay):
             raise vlib.Inconclusive("concurrent writers harness failed\n" + out[-2000:])
         for b in json.load(open(co))["bad"] or []:
             V.violation("interim write overlapping the final write: " + b, {"bad": b})
+        # several reports of one process into an append-mode outfile
+        tw = os.path.join(wd, "twice.json")
+        rc, out = vlib.go_test(wd, "./internal/mapr", OV, "TestC15AppendTwice", env={"VERIF_OUT": tw}, timeout=300)
+        if rc != 0 or not os.path.exists(tw):
+            raise vlib.Inconclusive("append-twice harness failed\n" + out[-2000:])
+        for b in json.load(open(tw))["bad"] or []:
+            V.violation("one process reporting three times in append mode: " + b[:300], {"bad": b})
         # kill points at write(2) granularity (strace): an append of a result larger than any library buffer
         so = os.path.join(wd, "syswrite.json")
         rc, out = vlib.go_test(wd, "./internal/mapr", OV, "TestC15SysWrite", env={"VERIF_OUT": so}, timeout=600)
